@@ -91,7 +91,7 @@ class TlcResult:
         self.printed = re.findall(r'^<<"(\w+)", (.*)>>$', out, re.M)
 
     def last_l(self):
-        ls = re.findall(r"^/\\ l = (\d+)", self.out, re.M)
+        ls = re.findall(r"^(?:/\\ )?l = (\d+)", self.out, re.M)
         return int(ls[-1]) if ls else None
 
 
